@@ -302,7 +302,13 @@ type Dog implements Node { id: ID! bone: String }
 type Query { node(id: ID!): Node pong: String }
 `
 
+// vBothPets: abstract lists hold one member of every type (kernels that need every child step issued)
+var vBothPets = false
+
 func vPickPets(name string, k int) []vRef {
+	if vBothPets {
+		return []vRef{{"Cat", "c1"}, {"Dog", "d1"}}
+	}
 	n := vMinLen + verifChoice(name+".len", k+1-vMinLen)
 	l := make([]vRef, n)
 	for i := range l {
@@ -355,7 +361,9 @@ func vAbstractOps() []vOp {
 		{q: `{ pets { id ... on Cat { toy } } }`},
 		{q: `{ pets { myid: id ... on Cat { toy } ... on Dog { bone } } }`},
 		{q: `{ things { ... on Cat { id toy } ... on Dog { bone } } }`},
-		{q: `{ things { __typename ... on Cat { toy } } }`, known: "abs-typename-next-to-union-fragment"},
+		{q: `{ things { __typename ... on Cat { toy } } }`},
+		{q: `{ things { ... on Dog { bone bark } } }`},
+		{q: `{ pets { ... on Cat { toy } } }`, known: "abs-fragment-on-one-implementer"},
 		{q: `{ pets { ... on Pet { name } } }`, known: "abs-fragment-on-interface"},
 	}
 }
